@@ -89,10 +89,10 @@ Proof.
     cbn [with_file wf wtitle wnat wfmt wset wbsz wbox wcur wclosed]; rewrite <- !app_assoc; reflexivity.
 Qed.
 
-Lemma w_record_ok st s r : at_end st -> has_vel r = s_vel s ->
+Lemma w_record_ok st s r : at_end st -> has_vel r = s_vel s -> count_reached st = false ->
   w_record st s r = Ok (set_cur (with_file st (wf st ++ line_of (s_w s) (s_d s) r ++ [NL])) (S (wcur st))).
 Proof.
-  intros He Hv. unfold w_record. rewrite parse_atomlist_line by assumption. cbn [bind].
+  intros He Hv Hg. unfold w_record. rewrite Hg. rewrite parse_atomlist_line by assumption. cbn [bind].
   rewrite (fwrite_end st) by assumption.
   rewrite (fwrite_end (with_file st _)) by apply at_end_with_file.
   cbn [with_file wf wtitle wnat wfmt wset wbsz wbox wcur wclosed]. rewrite <- app_assoc. reflexivity.
@@ -115,17 +115,26 @@ Section Run.
     mkwstate (file_w written) (length (file_w written)) title (c_natoms c) (Some (w, d))
              (Some (mkwsetup (length header0) w d vel)) (Some (L + 1)) box (length written) false.
 
-  Lemma w_setup_ok r : has_vel r = vel -> length (line_of w d r) = L ->
+  (* room for k more records: the announced count, if any, is above the records written *)
+  Definition room (k : nat) : Prop :=
+    match c_natoms c with Some n => (Z.of_nat k <= n)%Z | None => True end.
+  Lemma room_guard st k : wnat st = c_natoms c -> wcur st < k -> room k -> count_reached st = false.
+  Proof.
+    intros Hn Hk Hr. unfold count_reached, room in *. rewrite Hn. destruct (c_natoms c); [|reflexivity].
+    apply Z.leb_gt. lia.
+  Qed.
+
+  Lemma w_setup_ok r : room 1 -> has_vel r = vel -> length (line_of w d r) = L ->
     w_writeline (mkwstate [] 0 title (c_natoms c) (c_fmt c) None None box 0 false) r = Ok (st_w [r]).
   Proof.
-    intros Hv HL. unfold w_writeline. cbn [wset]. unfold w_setup. cbn [wfmt].
+    intros Hroom Hv HL. unfold w_writeline. cbn [wset]. unfold w_setup. cbn [wfmt].
     assert (Hwd' : match c_fmt c with None => (DEFAULT_POS_FIGURES, DEFAULT_POS_DECIMALS) | Some f => f end = (w, d))
       by exact Hwd.
     rewrite Hwd'.
     pose proof (title_of_ok c Htitle) as Hnl. fold title in Hnl.
     rewrite (w_header_ok _ title) by (reflexivity || assumption).
     cbn [bind with_file wf wpos wtitle wnat wfmt wset wbsz wbox wcur wclosed].
-    rewrite w_record_ok by (reflexivity || (cbn [s_vel]; assumption)).
+    rewrite w_record_ok by (reflexivity || (cbn [s_vel]; assumption) || (apply (room_guard _ 1); [reflexivity|cbn; lia|assumption])).
     cbn [bind]. unfold set_bsz, set_cur, with_file, set_setup.
     cbn [wf wpos wtitle wnat wfmt wset wbsz wbox wcur wclosed s_w s_d].
     change (title ++ [NL] ++ match c_natoms c with Some n => fmt_Z n | None => repeat SP NUMBER_FIGURES end ++ [NL])
@@ -141,11 +150,12 @@ Section Run.
   Lemma at_end_st_w written : at_end (st_w written).
   Proof. reflexivity. Qed.
 
-  Lemma w_more_ok written r : has_vel r = vel ->
+  Lemma w_more_ok written r : room (S (length written)) -> has_vel r = vel ->
     w_writeline (st_w written) r = Ok (st_w (written ++ [r])).
   Proof.
-    intros Hv. unfold w_writeline. cbn [wset st_w].
-    rewrite w_record_ok by (try apply at_end_st_w; cbn [s_vel]; assumption).
+    intros Hroom Hv. unfold w_writeline. cbn [wset st_w].
+    rewrite w_record_ok by (try apply at_end_st_w; (cbn [s_vel]; assumption) ||
+                            (apply (room_guard _ (S (length written))); [reflexivity|cbn; lia|assumption])).
     unfold set_cur, with_file. cbn [wf wpos wtitle wnat wfmt wset wbsz wbox wcur wclosed s_w s_d st_w].
     unfold st_w. f_equal.
     assert (E : file_w written ++ line_of w d r ++ [NL] = file_w (written ++ [r])).
@@ -155,13 +165,22 @@ Section Run.
     reflexivity.
   Qed.
 
-  Lemma w_run_recs more : forall written, Forall (fun r => has_vel r = vel) more ->
+  Lemma room_le k k' : k' <= k -> room k -> room k'.
+  Proof. unfold room. destruct (c_natoms c); [|auto]. intros; lia. Qed.
+
+  Lemma w_run_recs more : forall written, room (length written + length more) ->
+    Forall (fun r => has_vel r = vel) more ->
     w_run (st_w written) (map OpRec more) = Ok (st_w (written ++ more)).
   Proof.
-    induction more as [|r m IH]; intros written H.
+    induction more as [|r m IH]; intros written Hroom H.
     - rewrite app_nil_r. reflexivity.
-    - inversion H; subst. cbn [map w_run w_step]. rewrite w_more_ok by assumption. cbn [bind].
-      rewrite IH by assumption. rewrite <- app_assoc. reflexivity.
+    - inversion H; subst. cbn [map w_run w_step].
+      assert (Hr1 : room (S (length written))) by (apply (room_le (length written + length (r :: m))); [simpl; lia|assumption]).
+      rewrite (w_more_ok written r Hr1) by assumption.
+      cbn [bind]. rewrite IH.
+      + rewrite <- app_assoc. reflexivity.
+      + rewrite app_length. simpl in *. replace (length written + 1 + length m) with (length written + S (length m)) by lia. assumption.
+      + assumption.
   Qed.
 
   (* ---------------------------------------------------------------- close *)
